@@ -55,3 +55,41 @@ func VerifRR() {
 	}
 	gosym.Reach("fair")
 }
+
+// VerifRRConcurrent: G goroutines share one round-robin selector over n routable endpoints and
+// make K selections each, under every interleaving of their atomic steps: every endpoint is
+// selected exactly G*K/n times (G*K a multiple of n).
+func VerifRRConcurrent() {
+	G, K, n := gosym.Param("G"), gosym.Param("K"), gosym.Param("N")
+	sel := NewRoundRobinSelector(nil)
+	c0 := gosym.Uint64("c0")
+	gosym.Assume(c0 < 1<<63)
+	sel.counter = c0
+	eps := make([]*domain.Endpoint, n)
+	for i := range eps {
+		eps[i] = &domain.Endpoint{Name: string(rune('a' + i)), Status: domain.StatusHealthy}
+	}
+	counts := make([]int, n)
+	done := 0
+	for g := 0; g < G; g++ {
+		go func() {
+			for k := 0; k < K; k++ {
+				e, err := sel.Select(context.Background(), eps)
+				if err == nil {
+					for i, x := range eps {
+						if x == e {
+							counts[i]++
+						}
+					}
+				}
+			}
+			done++
+		}()
+	}
+	gosym.RunPending()
+	gosym.Assert(done == G, "all selectors finished")
+	for i := range counts {
+		gosym.Assert(counts[i]*n == G*K, "round-robin under concurrency: each endpoint gets exactly its share of G*K selections")
+	}
+	gosym.Reach("end")
+}
